@@ -65,7 +65,11 @@ def enc_val(v):
 def py_val(v, salt=0, allow_gen=True):
     if v[0] == 'seq':
         items = [py_atom(a) for a in v[1]]
-        form = (salt + len(items)) % (3 if allow_gen else 2)
+        # the same items as a list, a tuple, the library's own tuple subclass (what msg.data itself is), or a generator
+        form = (salt + len(items)) % (4 if allow_gen else 3)
+        if form == 2:
+            from mido.messages.messages import SysexData
+            return SysexData(items)
         return items if form == 0 else (tuple(items) if form == 1 else (x for x in items))
     if v[0] == 'bytes':
         return bytes(v[1]) if salt % 2 else bytearray(v[1])
